@@ -908,6 +908,23 @@ func ruleSheetAccessorsAgree(c *eng.Ctx) {
 	c.Ok(R, "xlsx.(*Reader).PageCount#field", pc.Pos(), "counts "+counted)
 	check := func(fn *ssa.Function, what string) {
 		var fields []string
+		// the receiver, also where a function literal of the method has captured it
+		isRecv := func(root ssa.Value) bool {
+			if root == ssa.Value(fn.Params[0]) {
+				return true
+			}
+			if ld, ok := root.(*ssa.UnOp); ok && ld.Op == token.MUL {
+				root = ld.X
+			}
+			if fv, ok := root.(*ssa.FreeVar); ok {
+				t := fv.Type()
+				if pt, ok := t.(*types.Pointer); ok && !types.Identical(t, fn.Params[0].Type()) {
+					t = pt.Elem()
+				}
+				return types.Identical(t, fn.Params[0].Type())
+			}
+			return false
+		}
 		eng.Instrs(fn, true, func(in ssa.Instruction) {
 			v, ok := in.(ssa.Value)
 			if !ok {
@@ -916,12 +933,12 @@ func ruleSheetAccessorsAgree(c *eng.Ctx) {
 			if _, isSl := v.Type().Underlying().(*types.Slice); !isSl {
 				return
 			}
-			if fr, ok := eng.LoadOfField(v); ok && addrRoot(v) == ssa.Value(fn.Params[0]) {
+			if fr, ok := eng.LoadOfField(v); ok && isRecv(addrRoot(v)) {
 				fields = append(fields, fr.Field)
 			}
 			// a list reached through a nested struct of the receiver (r.workbook.Sheets.Sheet)
 			if ld, ok := v.(*ssa.UnOp); ok && ld.Op == token.MUL {
-				if fa, ok := ld.X.(*ssa.FieldAddr); ok && addrRoot(fa) == ssa.Value(fn.Params[0]) {
+				if fa, ok := ld.X.(*ssa.FieldAddr); ok && isRecv(addrRoot(fa)) {
 					if fr, ok := eng.AsField(fa); ok {
 						fields = append(fields, fr.Field)
 					}
